@@ -51,8 +51,8 @@ class Gen(kv.Gen):
 
     def value(self, kl):
         self.ver += 1
-        n = self.rng.choice([1, 4, 16, self.T // 6, self.T // 3]) - 0
-        n = max(1, min(n, self.T - 40 - kl))
+        n = self.rng.choice([0, 1, 4, 16, self.T // 6, self.T // 3])       # 0: an empty value is a snapshot as well
+        n = max(0, min(n, self.T - 40 - kl))
         return bytes([self.ver % 251 + 1]) * n
 
     def put(self, hk, buf=False):
